@@ -50,11 +50,25 @@ fn parse_body(kind: &str, body: &str) -> Value {
             }
         }
         json!({"raw": body})
+    } else if body.is_empty() {
+        // the designated value that is written with an EMPTY body (a lane holding `None` / `()` serialises to nothing)
+        json!(EMPTY_AS)
     } else {
         match body.trim().parse::<i64>() {
             Ok(n) => json!(n),
             Err(_) => json!({"raw": body}),
         }
+    }
+}
+
+/// The value / supply item that the harness writes as an empty body (and reads back from one).
+const EMPTY_AS: i64 = 2;
+
+fn body_bytes(n: i64) -> Bytes {
+    if n == EMPTY_AS {
+        Bytes::new()
+    } else {
+        Bytes::from(n.to_string())
     }
 }
 
@@ -165,7 +179,7 @@ fn run_case(case: &Value) -> Value {
                     _ => UplinkKind::Map,
                 };
                 let response = match resp["t"].as_str().unwrap() {
-                    "value" => UplinkResponse::Value(Bytes::from(resp["body"].as_i64().unwrap().to_string())),
+                    "value" => UplinkResponse::Value(body_bytes(resp["body"].as_i64().unwrap())),
                     "supply" => UplinkResponse::Supply(Bytes::from(resp["body"].as_i64().unwrap().to_string())),
                     "synced" => UplinkResponse::Synced(uk),
                     _ => {
